@@ -261,3 +261,17 @@ package panos
 // diffRules: the rule name in `where=before&dst=` goes into a URL like every other name (structural guard)
 //vc:func (*rulesPair).diffRules
 //vc:  assert[C03] at "url.QueryEscape(aName)" @moveDestinationEscaped true
+
+// ---- C08 / C03: order of the PAN-OS script of one vsys ----
+// First the objects the new rules need are created (transferNeededObjects),
+// then the rule commands follow, and only then the objects no rule uses any
+// more are removed: a rule never refers to an object that does not exist yet,
+// and no object is deleted while a rule on the device still refers to it.
+//vc:ghost var panTransfer []string
+//vc:ghost var panRuleCmds []string
+//vc:ghost var panRemove []string
+//vc:func diffConfig
+//vc:  assign after "ab.diffRules(vsysPath)" panRuleCmds = callresult
+//vc:  assign after "ab.transferNeededObjects(vsysPath)" panTransfer = callresult
+//vc:  assign after "ab.removeUnneededObjects(vsysPath)" panRemove = callresult
+//vc:  ensures[C03,C08] @objectsFirstThenRulesThenRemovals len(result) == len(panTransfer) + len(panRuleCmds) + len(panRemove) && (forall k int :: { result[k] } 0 <= k && k < len(panTransfer) ==> result[k] == panTransfer[k]) && (forall k int :: { panRuleCmds[k] } 0 <= k && k < len(panRuleCmds) ==> result[len(panTransfer) + k] == panRuleCmds[k]) && (forall k int :: { panRemove[k] } 0 <= k && k < len(panRemove) ==> result[len(panTransfer) + len(panRuleCmds) + k] == panRemove[k])
